@@ -69,7 +69,15 @@ impl<'a> Ctx<'a> {
                 _ => { let k = self.r.usize(self.tab.insts.len()); let inst = self.tab.insts[k].clone();
                        if inst.name.starts_with("Local") { continue; }
                        if inst.name == "ReturnCall" || inst.name == "ReturnCallIndirect" { continue; }
-                       out.push(inst.ins.clone()); self.note(inst.name); }
+                       if self.r.chance(1, 2) {
+                           // directly on the polymorphic stack (isolated by `unreachable` so that concrete leftovers cannot clash)
+                           out.push(I::Unreachable); self.note("Unreachable"); out.push(inst.ins.clone()); self.note(inst.name);
+                       } else {
+                           // fully fed with constants, results dropped: well-typed dead code
+                           for c in inst.params.clone() { out.push(interesting_const(self.r, c)); }
+                           out.push(inst.ins.clone()); self.note(inst.name);
+                           match &inst.results { Some(rs) => for _ in rs { out.push(I::Drop); }, None => {} }
+                       } }
             }
             self.info.dead_ops += 1;
         }
